@@ -206,12 +206,32 @@ var NegTemplates = []string{
 	"x += 1", "x ++", "local x = 1 ;;= 2", "goto", "break = 1", "local local", "local function", "function f", "function f (", "f ( ) ( ) = 2",
 }
 
+// CtxTemplates are statements that are grammatical but violate one of Lua's context conditions (or
+// use a construct only some dialects know): several to-be-closed variables in one list, unknown
+// attributes, assignment to a constant, break outside a loop, goto without a visible label, duplicate
+// labels, `...` outside a vararg function, duplicate parameters and names.
+var CtxTemplates = []string{
+	"local a <close> , b <close> = f ( ) , g ( )", "local a <const> , b <close> , c <close> = 1 , 2 , 3", "local a <close> , b <close> , c <close>",
+	"local a , b <close> , c <close> = 1", "local a <close> , a <close> = nil , nil", "local a <foo> = 1", "local a <close>", "local a <const>",
+	"local a <const> , b <const> , c <const> = 1", "local a <const> = 1 a = 2", "local a <close> = nil a = 1", "break", "do break end",
+	"function ctxf ( ) break end", "goto nowhere", "do goto inner end do ::inner:: end", "::dup:: ::dup::", "::dup:: do ::dup:: end",
+	"goto fwd local x = 1 ::fwd:: print ( x )", "function ctxg ( ) return ... end", "function ctxh ( a , a , a ) return a end",
+	"local a , a , a = 1 , 2 , 3", "for i , i in pairs ( t ) do end", "for i = i , i , i do i = i end", "local function a ( ) end local function a ( ) end",
+	"repeat local u <close> = nil until u", "while true do local w <close> , v <close> = nil , nil break end",
+	"return", "return 1 , 2", "do return end local unreachable = 1",
+}
+
 // InsertNegative inserts one negative template at a statement boundary.
 func InsertNegative(t *rapid.T, toks []Tok, exclude func(tpl string) bool) ([]Tok, string) {
 	tpl := rapid.SampledFrom(NegTemplates).Draw(t, "negTpl")
 	if exclude != nil && exclude(tpl) {
 		tpl = "x = = 1"
 	}
+	return InsertTemplate(t, toks, tpl)
+}
+
+// InsertTemplate inserts the space-separated tokens of tpl at a statement boundary.
+func InsertTemplate(t *rapid.T, toks []Tok, tpl string) ([]Tok, string) {
 	var bounds []int
 	for i, tk := range toks {
 		if tk.NL {
